@@ -192,6 +192,8 @@ type frame struct {
 	SubID   string
 	// the C01 signature raised (in addition to the C12 one) when the gate contradicts the verdict
 	C01Sig string
+	// the C11 signature raised (in addition to the C12 one) when the gate contradicts the verdict
+	C11Sig string
 }
 
 func (f *frame) sigClass() string {
